@@ -122,10 +122,17 @@ impl Block for SymbolSync {
         }
         // TODO: get rid of unwrap.
         let mut out_clock = self.out_clock.as_mut().map(|x| x.write_buf().unwrap());
+        // Every symbol also takes one slot in the clock stream, if enabled.
+        let clock_room = out_clock.as_ref().map(|c| c.len());
+        if clock_room == Some(0) {
+            drop(out_clock);
+            let clock = self.out_clock.as_ref().expect("can't happen: clock stream");
+            return Ok(BlockRet::WaitForStream(clock, 1));
+        }
 
         let mut n = 0; // Samples consumed.
         let mut opos = 0; // Current output position.
-        let olen = o.len();
+        let olen = std::cmp::min(o.len(), clock_room.unwrap_or(usize::MAX));
         let oslice = o.slice();
         for sample in input.iter() {
             // Stop before taking a sample, not in the middle of processing
